@@ -48,8 +48,8 @@ ASSUMPTIONS = [
     'the reader cursor is inside the data on entry (offset <= length; C02 cursor invariant) and the input is shorter than 2^47 bytes',
     'recursion depth (stack exhaustion) is not modelled: the statement bounds nesting by 500',
     'allocation succeeds (std::string growth, JSON containers): bad_alloc is not modelled',
-    'group JSON.parse.number: signed overflow of the int64_t / int accumulators wraps (two\'s complement) -- the ghost flag novf marks numerals whose '
-    'magnitude exceeds INT64_MAX and the value clause is stated for the others; group JSON.parse.number.no-overflow re-proves the branch with '
+    'group JSON.parse.number: signed overflow of the int64_t / int accumulators wraps (two\'s complement) -- the ghost flag novf marks decimal numerals whose '
+    'magnitude leaves the int64 range of their sign (> INT64_MAX, or > 2^63 after a minus sign) and the value clause is stated for the others; group JSON.parse.number.no-overflow re-proves the branch with '
     '--signed-overflow-check on for numerals of at most 18 integer digits / 15 hex digits; the exponent accumulator `int e` (wraps for exponents '
     '>= 2^31, i.e. ten or more digits) is exempted from the overflow check in both groups',
     'isdigit/isxdigit are called with a possibly negative plain char (bytes >= 0x80): glibc tolerates this; modelled as "not a digit"',
@@ -64,7 +64,11 @@ NOT_DECIDED = [
     'right value, the right extent',
     'conformance is per grammar rule with children abstracted by the induction hypothesis (the deductive argument for recursive descent); there is '
     'no end-to-end run; duplicate dictionary keys and the stored member values are not modelled (count only)',
-    'numerals whose magnitude exceeds INT64_MAX (incl. INT64_MIN, owned by C04) and exponents of ten or more digits: accumulate with signed overflow (UB)',
+    'decimal integer numerals outside the int64 range: decided is that they become floats (kind clause; the wrap-around to a wrong int64 was a genuine '
+    'defect, fix C05-4) -- which float is the floating-point VALUE again; hexadecimal numerals (extension) of 16 or more digits still wrap; exponents of ten or '
+    'more digits overflow the `int e` accumulator (UB)',
+    'the floating-point value of the fraction digits however they are accumulated (a seeded change that collects them in a wrapping uint64_t is NOT detected: '
+    'C05-R3B, DESIGN.md 8.6)',
     'OBSERVATIONS outside the statement, not counted as violations: the parser accepts in BOTH modes `\\xHH` escapes (not listed in JSON.hh), raw control '
     'characters in strings, leading zeros (01), `1.` / `1e` / `-` / `0x` without digits; a lone `+` is parsed as the integer 0 and consumes nothing; '
     'with extensions enabled a `/` that is the last byte of the input throws out_of_range from the comment look-ahead; an input ending inside a '
@@ -435,6 +439,13 @@ def json_unit(ctx, src, loops):
     if len(scal) != 2:
         raise ExtractionBreak('%s: expected the two exponent scaling loops `for (; e > 0; e--)`' % JS)
     loops = dict(loops)
+    # a flag of the code that records "the decimal integer digits left the int64 range" (`bool <name>overflow<name> = false;` in the
+    # number block) is tied to the ghost flag g_j.novf by a loop invariant of the integer-digit loop; without such a flag the invariant
+    # is absent and the kind clause of the contract decides on its own
+    ovf = re.findall(r'\bbool (\w*overflow\w*) = false;', lex.mask(nbody))
+    if len(ovf) > 1:
+        raise ExtractionBreak('%s: more than one overflow flag in the number block: %r' % (JS, ovf))
+    loops['num2'] = loops['num2'].replace('C05_NUM_INV_OVF', '__CPROVER_loop_invariant(g_j.nq != NQ_DEAD ==> ((%s != 0) == (g_j.novf != 0)))' % ovf[0] if ovf else '')
     for k, body in zip((5, 6), scal):
         tgt = ['e'] + [v for v in ('int_data', 'float_data') if re.search(r'\b%s\b' % v, body)]
         loops['num%d' % k] = '__CPROVER_assigns(%s)\n__CPROVER_loop_invariant(1 == 1)\n__CPROVER_decreases(e)' % ', '.join(tgt)
@@ -484,7 +495,9 @@ def json_unit(ctx, src, loops):
                rules=[Rule(r'\bStringReader r\(s, size\);', 'StringReader verif_r; StringReader* r = &verif_r; StringReader_ctor(r, s, size, 0); C05_CSTR_ENTRY;', count=1, regex=True),
                       Rule(r'\bauto ret = JSON::parse\(r, disable_extensions\);', '(JSON_parse(r, disable_extensions, ret), C05_CSTR_PARSED);', count=1, regex=True),
                       Rule(r'\breturn ret;', 'return;', count=1, regex=True),
-                      Rule(r'\bskip_whitespace_and_comments\(r, disable_extensions\);', 'C05_SKIP(r, disable_extensions); C05_CSTR_SKIPPED;', count=1, regex=True)] + COMMON_TAIL)
+                      # the ghost records the cursor at the "anything left?" test, wherever the trailing whitespace was skipped
+                      Rule(r'\bskip_whitespace_and_comments\(r, disable_extensions\);', 'C05_SKIP(r, disable_extensions);', count=None, regex=True),
+                      Rule(r'\bif \(!r\.eof\(\)\)', 'C05_CSTR_SKIPPED; if (!r.eof())', count=1, regex=True)] + COMMON_TAIL)
     u.function(src, JS, STR_SIG, ret_zero='',
                new_header='void JSON_parse_str(const vstr* s, bool disable_extensions, JVal* ret)',
                rules=[Rule(r'\breturn JSON::parse\(s\.data\(\), s\.size\(\), disable_extensions\);',
@@ -521,7 +534,7 @@ __CPROVER_loop_invariant(g_sk < verif_data.size ==> (uint8_t)verif_data.data[g_s
 __CPROVER_decreases(r->length - r->offset)
 """ % RDG_,
     # number branch: 1 hex digits, 2 integer digits, 3 fraction digits, 4 exponent digits, 5/6 scaling by the exponent
-    'num1': num_common('int_data') + """
+    'num1': num_common('@LOCALS@') + """
 __CPROVER_loop_invariant(g_j.nhex && !disable_extensions && r->offset > g_j.nstart && (g_j.nq == NQ_HEXP || g_j.nq == NQ_HEX || g_j.nq == NQ_DEAD))
 __CPROVER_loop_invariant((g_j.nq != NQ_DEAD && !g_j.novf) ==> ((uint64_t)int_data == g_j.nacc && g_j.nacc <= 0x7FFFFFFFFFFFFFFFull))
 __CPROVER_loop_invariant(g_j.nq == NQ_HEXP ==> C05_ISHEX(C05_PEEK(r)))
@@ -529,20 +542,21 @@ __CPROVER_loop_invariant(g_j.nq == NQ_DEAD ==> !C05_ISHEX(C05_PEEK(r)))
 C05_NUM_INV_HEX
 __CPROVER_decreases(r->length - r->offset)
 """,
-    'num2': num_common('int_data') + """
+    'num2': num_common('@LOCALS@') + """
 __CPROVER_loop_invariant(!g_j.nhex && (g_j.nq == NQ_START || g_j.nq == NQ_MINUS || g_j.nq == NQ_ZERO || g_j.nq == NQ_INT || g_j.nq == NQ_DEAD))
-__CPROVER_loop_invariant((g_j.nq != NQ_DEAD && !g_j.novf) ==> ((uint64_t)int_data == g_j.nacc && g_j.nacc <= 0x7FFFFFFFFFFFFFFFull))
+__CPROVER_loop_invariant((g_j.nq != NQ_DEAD && !g_j.novf) ==> ((uint64_t)int_data == g_j.nacc && g_j.nacc <= C05_INT_LIMIT(g_j.nneg)))
+C05_NUM_INV_OVF
 __CPROVER_loop_invariant(g_j.nq == NQ_ZERO ==> (r->offset == g_j.nstart + (negative ? 2 : 1) && r->data[r->offset - 1] == '0'))
 __CPROVER_loop_invariant((g_j.nq == NQ_START || g_j.nq == NQ_MINUS) ==> r->offset == g_j.nstart + (negative ? 1 : 0))
 __CPROVER_loop_invariant((g_j.nq == NQ_INT || g_j.nq == NQ_DEAD) ==> r->offset > g_j.nstart + (negative ? 1 : 0))
 C05_NUM_INV_DEC
 __CPROVER_decreases(r->length - r->offset)
 """,
-    'num3': num_common('float_data, this_place') + """
+    'num3': num_common('@LOCALS@') + """
 __CPROVER_loop_invariant(!g_j.nhex && r->offset > g_j.nstart && (g_j.nq == NQ_DOT || g_j.nq == NQ_FRAC || g_j.nq == NQ_DEAD))
 __CPROVER_decreases(r->length - r->offset)
 """,
-    'num4': num_common('e') + """
+    'num4': num_common('@LOCALS@') + """
 __CPROVER_loop_invariant(!g_j.nhex && r->offset > g_j.nstart && (g_j.nq == NQ_E || g_j.nq == NQ_ESIGN || g_j.nq == NQ_EXP || g_j.nq == NQ_DEAD))
 __CPROVER_loop_invariant(g_j.nq == NQ_E ==> (C05_PEEK(r) != '+' && C05_PEEK(r) != '-'))
 __CPROVER_decreases(r->length - r->offset)
